@@ -140,6 +140,8 @@ class ErrorDatagram(KademliaDatagramBase):
 
     def __init__(self, packet_type: int, rpc_id: bytes, node_id: bytes, exception_type: bytes, response: bytes):
         super().__init__(packet_type, rpc_id, node_id)
+        if not isinstance(exception_type, bytes) or not isinstance(response, bytes):
+            raise ValueError("invalid error datagram: exception type and message must be bytes")
         self.exception_type = exception_type.decode()
         self.response = response.decode()
 
